@@ -14,6 +14,11 @@ hand-written handler reads, two facts about `reflect_emit.go` and the call seque
 runners are regenerated from the source on every run (`Generated.C16CompileNodes`); theorems are
 stated for **any** tables, the obligations re-check the regenerated ones by `decide`.
 
+`Model.EmitQuote` models the way of a *scalar value* through Go source text (`%q` = `strconv.Quote`, Go's
+reading of interpreted and raw string literals, `Generator.printf`'s per-line indentation, `%d`, the sign
+of a float): section "scalar payloads" below; tied to the real Generator every run by the scalar probe of
+harness/c16 (every scalar field x every payload class x three indentation depths).
+
 **Partial.** The theorems are about the *structure* of the translation: which fields reach the
 generated program. That each hand-written handler passes the fields it reads to the right
 constructor argument, that the constructors rebuild what the parser built, and that the run-time
